@@ -21,51 +21,51 @@ T = {
          "As C02; tick injection uses a build-tagged hook that posts the same event a ticker posts."),
  "C04": ("exploration",
          "reference SEID-allocator model + structural invariants on state snapshots at quiescence; lookups by every SEID class",
-         "Random establish/delete/re-associate/SEID-0 histories over several SMFs with Modification/Deletion/Report-Response lookups by 0, live, released, beyond-table, >=2^63 and 2^64-1 SEIDs; the allocator model is stepped by the observed responses, slot/free-list invariants are checked on hook snapshots.",
+         "Random establish/delete/re-associate/SEID-0 histories over several SMFs with Modification/Deletion/Report-Response lookups by 0, live, released, beyond-table, >=2^63 and 2^64-1 SEIDs; the allocator model is stepped by the observed responses, slot/free-list invariants are checked on hook snapshots. Every history is re-run with injected data-plane faults (removals refused during tear-down, failing creates/updates/queries) and with unanswered Session Report Requests running out of retries.",
          "Snapshots are read while the event loop is idle (after a heartbeat barrier); model data plane is harness code."),
  "C05": ("exploration",
          "per-request attribution of driver calls + before/after snapshot diff of all other sessions",
-         "Histories with colliding rule ids and CP-SEIDs across peers; while a request for session S is processed every driver call must carry S's SEID and every other session's snapshot (rules, UR-SEQN counters, queues, data-plane rules) must be unchanged; re-association and SEID-0 removal sets are compared with the model.",
+         "Histories with colliding rule ids and CP-SEIDs across peers; while a request for session S is processed every driver call must carry S's SEID and every other session's snapshot (rules, UR-SEQN counters, queues, data-plane rules) must be unchanged; re-association and SEID-0 removal sets are compared with the model; a re-issued SEID must not start with rules of an ended session. Histories are re-run with refused removals / failing creates and with report requests given up after all retries.",
          "As C04."),
  "C06": ("exploration",
          "at-most-once table model over recorded datagrams, bounded-exhaustive event orders with injected retention expiries",
-         "All orders (to a depth) of first copies, duplicates and injected RX-timer expiries over request instances from peers with equal sequence numbers; duplicates must cause no driver call / snapshot change and be answered byte-identically; after expiry bookkeeping must be gone and the next copy executed as new.",
+         "All orders (to a depth) of first copies, duplicates and injected RX-timer expiries over request instances from peers with equal sequence numbers; duplicates must cause no driver call / snapshot change and be answered byte-identically; after expiry bookkeeping must be gone and the next copy executed as new. Half of the random sequences add UPF-initiated requests with the same address-sequence identifier (report / tx expiry / answer events): the two transaction tables must not disturb each other.",
          "Expiry is injected through the exported NotifyTransTimeout (real timers set to 1 h); transaction tables read through a hook at quiescence."),
  "C07": ("exploration",
          "structure-aware datagram fuzzing with fatal-exit/panic capture, heartbeat liveness probe and untouched-session snapshot diff",
-         "Valid prefix, then mutated datagrams of every dispatched type from associated and unknown peers, against the no-op and the real gtp5g driver (over a simulated kernel); monitors: logrus Fatal hook, process exit, checkptr, heartbeat answer, snapshot of unaddressed sessions.",
+         "Valid prefix, then mutated datagrams of every dispatched type from associated and unknown peers, against the no-op and the real gtp5g driver (over a simulated kernel); monitors: logrus Fatal hook, process exit, checkptr, heartbeat answer, snapshot of unaddressed sessions (a third node's and the sender's own).",
          "Crash signatures are bucketed by panic class + first go-upf frame; known findings listed in KNOWN_FINDINGS.txt."),
  "C08": ("exploration",
          "response-correlation monitor over the datagram log + snapshot diff for rejected/unanswered requests",
          "Every response must come back to the request's source socket with its sequence number and the peer's SEID (0 with cause 65 for unknown sessions); accepted Establishment Responses must carry node id and a UP F-SEID that addresses the session; error/unanswered requests must leave driver log and snapshot unchanged; one recovery time stamp per server; histories include retransmissions, second sockets, take-over and re-association.",
          "As C04."),
  "C09": ("exploration",
-         "TX-transaction model over recorded datagrams with injected timer expiries, bounded-exhaustive + random event orders",
-         "Reports injected for several sessions/peers; TX expiries injected at chosen points; responses scripted (matching, duplicate, wrong peer, wrong sequence); checks distinct outstanding wire sequence numbers (also across 2^24 and 2^32), byte-identical retransmissions, retry bound, stop on response, release of bookkeeping.",
+         "TX-transaction model over recorded datagrams with injected timer expiries, bounded-exhaustive + random event orders; real-timer cases racing a queued expiry against the answer",
+         "Reports injected for several sessions/peers; TX expiries injected at chosen points; responses scripted (matching, duplicate, wrong peer, wrong sequence); checks distinct outstanding wire sequence numbers (also across 2^24 and 2^32), byte-identical retransmissions, retry bound, stop on response, release of bookkeeping. Real-timer cases (15-40 ms) hold the loop in a gated driver call until expiries and answers are both queued, release it, and require on the wire that nothing is retransmitted after the UPF has handled the answer (marker heartbeat on the same socket).",
          "Counter positioned through a build-tagged hook; expiry injected through the exported NotifyTransTimeout."),
  "C10": ("exploration",
          "conservation check with uniquely valued reports from a simulated kernel to the SMF sockets",
-         "Kernel-side reports (multicast REPORT, periodic, query/update/remove/dissociation results) carry unique counters; every Usage Report IE at an SMF must map back to exactly one kernel report with all fields equal and measurement IEs selected by the URR's current method/MNOP (partial Update URR included); reports for unknown sessions/URRs must be absent and the rest of the batch present; PFCP-level histories with take-over check that every report request reaches the current owner.",
+         "Kernel-side reports (multicast REPORT, periodic, query/update/remove/dissociation results) carry unique counters; every Usage Report IE at an SMF must map back to exactly one kernel report with all fields equal and measurement IEs selected by the URR's current method/MNOP (partial Update URR included); reports for unknown sessions/URRs must be absent and the rest of the batch present; PFCP-level histories with take-over check that every report request reaches the current owner; a third of the URR removals is refused by the simulated kernel (the URR stays known and reported).",
          "Simulated kernel semantics are assumptions listed in evidence."),
  "C11": ("exploration",
          "per-URR-incarnation counter model over datagrams in arrival order; porcupine linearizability check of concurrent histories",
-         "UR-SEQN values per (session, URR incarnation) over all three carriers must be 0,1,2,... in arrival order at the owning SMF socket (sequential histories on two data-plane variants); concurrent histories (query clients, notification and multicast producers on the full stack) are checked for linearizability against a per-URR fetch-and-increment model with porcupine.",
+         "UR-SEQN values per (session, URR incarnation) over all three carriers must be 0,1,2,... in arrival order at the owning SMF socket (sequential histories on two data-plane variants); concurrent histories (query clients, notification and multicast producers on the full stack) are checked for linearizability against a per-URR fetch-and-increment model with porcupine. Histories include refused removals and report requests that are never answered and given up after their last retry (the counter must not move).",
          "Loopback UDP preserves order between one sender and one receiver socket; drops are detected via /proc/net/udp."),
  "C12": ("exploration",
          "reference PDR<->URR association model (derived from current lists) compared with TERMR/IMMER reports per response",
-         "Single-session histories of Create/Update/Remove PDR with arbitrary URR lists, Create/Remove/Query URR and deletion; the set of URRs that must report with TERMR (resp. IMMER) in each response is derived from the model and compared with the observed reports, each exactly once.",
+         "Single-session histories of Create/Update/Remove PDR with arbitrary URR lists, Create/Remove/Query URR and deletion; the set of URRs that must report with TERMR (resp. IMMER) in each response is derived from the model and compared with the observed reports, each exactly once. Every history is re-run with 1-2 removals refused by the data plane (the PDR / URR then stays, with its associations).",
          "Model data plane returns one report per query/removal of an existing URR and an error otherwise."),
  "C13": ("exploration",
          "per (session incarnation, PDR) FIFO model with unique payloads, observed at simulated gNB sockets",
-         "BUFFER multicasts with unique payloads, FAR apply-action transitions (incl. the first tunnel arriving with the switch to FORW and permuted IE order), PDR/session removal, SEID re-use and take-over against the real driver over the simulated kernel; released packets must be exactly the queued ones, once, in order, to the FAR's peer/TEID/QFI; none after drop or session end; downlink-data reports iff NOCP, to the current owner.",
+         "BUFFER multicasts with unique payloads, FAR apply-action transitions (incl. the first tunnel arriving with the switch to FORW, permuted IE order, and updates the kernel refuses), PDR/session removal, SEID re-use and take-over against the real driver over the simulated kernel; released packets must be exactly the queued ones, once, in order, to the FAR's peer/TEID/QFI; none after drop or session end; downlink-data reports iff NOCP, to the current owner.",
          "Simulated kernel computes FAR/QER<->PDR relations like gtp5g; GTP-U decoded by the independent decoder of C14."),
  "C14": ("exploration",
-         "independent GTP-U / PDU-session-container decoder over encoder output; exhaustive QFI x PDU type core",
-         "All QFI 0..63 x PDU type 0..15 x with/without container x boundary TEIDs x payload lengths (thorough: every length 0..1500) decoded by an independent decoder written from TS 29.281 / TS 38.415. The Gtp5g.WritePacket path is exercised by C13 with the same decoder.",
+         "independent GTP-U / PDU-session-container decoder over encoder output (exhaustive QFI x PDU type core) and over datagrams written by the real Gtp5g.WritePacket in sequences",
+         "All QFI 0..63 x PDU type 0..15 x with/without container x boundary TEIDs x payload lengths (thorough: every length 0..1500) decoded by an independent decoder written from TS 29.281 / TS 38.415. Sequences of 4-14 packets (lengths up and down, with/without QoS flow, changing TEIDs) go through the real Gtp5g.WritePacket to a UDP listener and are decoded by the same decoder; C13 exercises the same path from buffered packets.",
          "Decoder is harness code written from the specifications."),
  "C15": ("exploration",
          "registered-set model per period against the real perio server with injected ticks; ticker-goroutine census",
-         "Random add/remove histories over sessions, URRs and periods against the real perio.Server; every injected tick must query exactly the model set, deliver each report once marked PERIO; ticker goroutines must match non-empty periods and vanish on Close; driver level: batch union/size at the simulated kernel.",
+         "Random add/remove histories over sessions, URRs and periods against the real perio.Server; every injected tick must query exactly the model set, deliver each report once marked PERIO; ticker goroutines must match non-empty periods and vanish on Close; driver level: batch union/size at the simulated kernel, with a third of the removals refused by the kernel; a few cases with real 1 s / 2 s tickers (bounded progress).",
          "Tick injection via build-tagged hook; goroutine census by runtime stack scan."),
  "C16": ("exploration",
          "grammar-based generator + independent reference parser; round trip through the packed netlink form; fault-freedom on junk",
@@ -76,8 +76,8 @@ T = {
          "Full stack under -race with 2-4 SMFs, concurrent report producers, millisecond timers and tickers and a Stop at a seeded point through the real shutdown path.",
          "Race reports are attributed by the innermost non-runtime frame of each access; schedules not produced are not decided."),
  "C18": ("exploration",
-         "closed-system progress monitor with wait-for-cycle witness from goroutine dumps",
-         "Session/URR counts and report bursts swept across the internal queue capacities with bulk removals; held = all obligations complete; violated = wait-for cycle among go-upf goroutines with full queues (time independent).",
+         "closed-system progress monitor with deadlock witnesses from goroutine dumps (nil-channel block, wait-for cycle, loop blocked outside its select in two dumps)",
+         "Session/URR counts and report bursts swept across the internal queue capacities with bulk removals; plus real-ticker scenarios and late answers to a report burst while the loop is busy (real retransmission timers); held = all obligations complete; violated = no progress AND a witness: the loop blocked on a nil channel, a wait-for cycle among go-upf goroutines, or the loop blocked at the same frame outside its select in two dumps.",
          "Liveness restated as bounded progress / deadlock witness (DESIGN.md §4 C18)."),
  "C19": ("exploration",
          "exhaustive enumeration of flag words against tables transcribed from TS 29.244",
